@@ -116,6 +116,10 @@ pub fn emit(e: &mut Emitter, seed: u64, thorough: bool) {
         if lb <= 8 {
             e.case("reverse-in-place-2KiB", format!("c15 revinplace {lb} 2048"), || show_perm(&rev_inplace_generic::<256>(lb)));
         }
+        if lb <= 7 {
+            e.case("reverse-in-place-4KiB", format!("c15 revinplace {lb} 4096"), || show_perm(&rev_inplace_generic::<512>(lb)));
+            e.case("reverse-in-place-8KiB", format!("c15 revinplace {lb} 8192"), || show_perm(&rev_inplace_generic::<1024>(lb)));
+        }
         if lb <= 5 {
             e.case("reverse-in-place-16KiB", format!("c15 revinplace {lb} 16384"), || show_perm(&rev_inplace_generic::<2048>(lb)));
         }
